@@ -8,6 +8,7 @@ import FunModel.Drv.C14
 import FunModel.Drv.C05
 import FunModel.Drv.C06
 import FunModel.Drv.C03
+import FunModel.Drv.C11
 
 /-! Line-protocol driver: `driver <property>` reads one S-expression per line on stdin and prints
     the model's observation for it on one line. Core Lean only (no Mathlib) so it links. -/
@@ -25,6 +26,7 @@ def handlerFor : String → Option (Sexp → String)
   | "C07" => some DrvC06.handleBoth
   | "C20" => some DrvC06.handleBoth
   | "C03" => some DrvC03.handle
+  | "C11" => some DrvC11.handle
   | "C17" => some DrvC16.handle
   | _ => none
 
